@@ -536,6 +536,8 @@ pub fn explore<S: Scenario>(s: &S, cfg: &ExploreCfg, rep: &Reporter) -> ExploreS
 	if !st.exhausted {
 		rep.not_exhaustive(&format!("{name}: capped after {} executions (bound {:?})", st.execs, cfg.bound));
 	}
+	rep.extra_add("schedules_executed_twice_for_determinism", st.rechecked);
+	rep.extra_add("replay_divergences", st.divergences);
 	rep.extra_push(
 		"scenarios",
 		json!({"scenario": name, "config": s.config(), "bound": cfg.bound, "executions": st.execs, "tree_nodes": st.nodes,
